@@ -147,9 +147,12 @@ class Top(YowLayer):
         self.events = []
         self.passive = False
         self.auto_auth = True
+        self.disconnect_on_tag = None     # like the auth layer on <failure>: ask for a disconnect from inside the delivery
 
     def receive(self, d):
         self.got.append(d)
+        if self.disconnect_on_tag is not None and getattr(d, "tag", None) == self.disconnect_on_tag:
+            self.broadcastEvent(YowLayerEvent(YowNetworkLayer.EVENT_STATE_DISCONNECT, reason="requested by the layer above"))
 
     def onEvent(self, ev):
         self.events.append(ev.getName())
